@@ -53,7 +53,8 @@ def ar_as_dict(ar):
 
 class CandRun(object):
 
-    def __init__(self, world, seed, mode, ops=None, query=None):
+    def __init__(self, world, seed, mode, ops=None, query=None, big=None):
+        self.big = big              # that many flat one-provider trees
         self.world = world
         self.seed = seed
         self.mode = mode            # 'claim' (C02) | 'limit' (C20)
@@ -101,7 +102,33 @@ class CandRun(object):
         # through a common aggregate, a second sharing provider in another
         # aggregate - the shapes the candidate code has separate paths for
         template = []
-        if rng.random() < 0.55:
+        if self.big:
+            # a deployment of more than a thousand compute nodes: one
+            # candidate and one summary each
+            from psim import scale
+            tr = ['HW_CPU_X86_AVX', 'HW_CPU_X86_AVX2', 'STORAGE_DISK_SSD',
+                  'CUSTOM_TR_A']
+            template.append({'m': 'PUT', 'p': '/traits/CUSTOM_TR_A',
+                             'v': '1.39', 'kind': 'trait_put'})
+            for i in range(self.big):
+                u = scale.P(i)
+                template.append({'m': 'POST', 'p': '/resource_providers',
+                                 'v': '1.39', 'kind': 'rp_create',
+                                 'b': {'name': 'cn-%d' % i, 'uuid': u}})
+                template.append({
+                    'm': 'PUT', 'kind': 'inv_put_all', 'v': '1.39',
+                    'p': '/resource_providers/%s/inventories' % u,
+                    'b': {'resource_provider_generation': 0,
+                          'inventories': {'VCPU': {'total': 8},
+                                          'MEMORY_MB': {'total': 64}}}})
+                template.append({
+                    'm': 'PUT', 'kind': 'rpt_put', 'v': '1.39',
+                    'p': '/resource_providers/%s/traits' % u,
+                    'b': {'resource_provider_generation': 1,
+                          'traits': rng.sample(tr, rng.choice([1, 2, 3]))}})
+            g.P = [scale.P(i) for i in rng.sample(range(self.big), 5)] + \
+                [scale.P(self.big - 1)]
+        elif rng.random() < 0.55:
             P = g.P
             agg1, agg2 = g.A[0], g.A[1]
 
@@ -174,8 +201,18 @@ class CandRun(object):
             self.ops.append(workload.op_brief(op))
             if r.status != exp.status:
                 return False
+            if not self.big:
+                self.model.adopt(dump.natural(w))
+            elif isinstance(r.json, dict) and \
+                    'resource_provider_generation' in r.json:
+                # (a full dump per request would be quadratic here)
+                u_ = op['p'].split('/')[2]
+                self.model.providers[u_]['generation'] = \
+                    r.json['resource_provider_generation']
+        if self.big:
             self.model.adopt(dump.natural(w))
-        for i in range(rng.randint(6 if template else 12, 32)):
+        for i in range(rng.randint(6 if template else 12, 32)
+                       if not self.big else 8):
             op = g.next_op(self.model)
             pre = self.model.clone()
             exp = self.model.apply(op)
@@ -304,6 +341,11 @@ class CandRun(object):
             return self.findings
         self.snap = w.snapshot()
         self.nat = dump.natural(w)
+        # what is returned must be claimable in either setting
+        rand_claims = (self.mode == 'claim' and self.fixed_query is None and
+                       self.rng.random() < 0.3)
+        if rand_claims:
+            self.probe('claim_runs_with_randomisation')
         n_q = 1 if self.fixed_query is not None else (
             6 if self.mode == 'claim' else 3)
         for _ in range(n_q):
@@ -312,6 +354,8 @@ class CandRun(object):
                 break
             self.stats['queries'] += 1
             if self.mode == 'claim':
+                if rand_claims:
+                    q['randomize'] = self.rng.randrange(1, 1000)
                 self.check_claim(q)
             else:
                 self.check_limit(q)
@@ -328,6 +372,12 @@ class CandRun(object):
         vv = M.ver(v)
         params = list(q['params'])
         path = '/allocation_candidates?' + self.qs(params)
+        import random as grandom
+        w.conf.set_override('randomize_allocation_candidates',
+                            bool(q.get('randomize')), group='placement')
+        # (the seed of the PRNG the code shuffles with is part of the query
+        # description, so that a replay sees the same order)
+        grandom.seed(q.get('randomize') or 0)
         r = self.req('GET', path, None, v)
         if r.status != 200:
             if r.status >= 500:
